@@ -92,10 +92,12 @@ PrepareExit(p) ==
      \/ /\ \E f \in Views(r, "PREPARE") : ~Strong(Sup(f, pv)) /\ (~CouldReach(f, pv, FALSE) \/ Strong(SendP(f)))
         /\ Set(p, [st[p] EXCEPT !.phase = "COMMIT", !.val = Bot], {Vote(p, r, "COMMIT", Bot)})
 
+\* tryCommit(round of the message) runs on every relevant COMMIT in any phase before DECIDE -- QUALITY included -- and for the current round, the
+\* previous one, or any later one (found by the refinement check GPBFTRefine.tla: the first version of this action excluded QUALITY and future rounds)
 Decide(p) ==
-  /\ st[p].phase \in {"CONVERGE", "PREPARE", "COMMIT"}
-  /\ \E v \in {x \in Chains : \E rr \in 0..st[p].round :
-                  /\ (rr = st[p].round \/ rr + 1 = st[p].round)
+  /\ st[p].phase \in {"QUALITY", "CONVERGE", "PREPARE", "COMMIT"}
+  /\ \E v \in {x \in Chains : \E rr \in 0..MaxRound :
+                  /\ (rr >= st[p].round \/ rr + 1 = st[p].round)
                   /\ \E f \in Views(rr, "COMMIT") : Strong(Sup(f, x))} :
        Set(p, [st[p] EXCEPT !.phase = "DECIDE", !.val = v], {Vote(p, 0, "DECIDE", v)})
 
